@@ -14,6 +14,7 @@ REGISTRY = {
     'C02': ('c02', []),
     'C18': ('c18', []),
     'C10': ('c10', []),
+    'C15': ('c15', ['real thread/process scheduling, pickling and races inside user models are not modelled (partial)']),
     'C16': ('c16', ['log/exp are parameters of the model; Log chains are checked by the round-trip oracle only', 'SVD projection matrices are oracles (orthonormality checked numerically)']),
     'C09': ('c09', ['Leja point placement (scipy DIRECT) and the model function are oracles of the model']),
     'C08': ('c08', ['the look-ahead predictions and relative errors that feed the scan are recomputed from public calls, not modelled']),
